@@ -36,7 +36,9 @@ type Conn struct {
 	tlsState *tls.ConnectionState
 	username string
 	password string
-	uuid     uuid.UUID
+	// hasPassword is true once a password was presented, even an empty one.
+	hasPassword bool
+	uuid        uuid.UUID
 }
 
 func newConnWith(conn net.Conn, tlsState *tls.ConnectionState) *Conn {
@@ -100,11 +102,12 @@ func (conn *Conn) UserName() (string, bool) {
 // SetPassword sets the password to the connection.
 func (conn *Conn) SetPassword(password string) {
 	conn.password = password
+	conn.hasPassword = true
 }
 
 // Password returns the password and true if the connection has the password.
 func (conn *Conn) Password() (string, bool) {
-	return conn.password, 0 < len(conn.password)
+	return conn.password, conn.hasPassword
 }
 
 // Timestamp returns the creation time of the connection.
